@@ -20,6 +20,11 @@ def _fe_dec(s):           # from_encoded: r=ok(enc,dec,re) -> dec ; else none
 def _some_doc(s):         # delete r: none|some(DOC) -> same syntax as spec_r
     return s
 
+def _get_spec(line, fi, fm):
+    """`get`: token form compares with spec_r (the token), range forms with spec_view (the span of the denoted token range)"""
+    rng = line.split(" ")[2] if len(line.split(" ")) > 2 else ""
+    return (fi.get("r"), fm.get("spec_r") if rng.startswith("tok@") else fm.get("spec_view"))
+
 ACC = ["text", "toks", "encs", "count", "first", "last", "gets", "comps", "is_root", "len"]
 LOCATE = ["pos", "off", "pl", "label", "gp", "sa"]
 
@@ -83,6 +88,7 @@ PROPS = {
   theorems="Jp.C04.tokens_fromRaw, count_fromRaw, text_fromRaw, fromTokens_tokens, fromRaw_injective, front_eq, back_eq, concat_tokens, …",
  ),
  "C05": dict(
+  twin_toml=True,
   ops={"resolve": dict(fields=["r", "val"], spec=[("r", "spec_r", ident)], laws=["law_walk"])},
   rule="all documents of a tiny grammar × all pointers of ≤2 (quick) / ≤3 (thorough) tokens over a delicate pool, + seeded random documents with path-directed / perturbed / free pointers; non-trivial: ≥2 tokens or an index/escaped token, on a container",
   exhaustive="155 tiny documents × all pointers of ≤2/≤3 tokens over {a,0,1,-,00,~0}",
@@ -90,18 +96,21 @@ PROPS = {
   partial="address identity (the returned reference is the node at the location: LOC is computed from addresses by jpserve) is an implementation-side observation",
  ),
  "C06": dict(
+  twin_toml=True,
   ops={"assign": dict(fields=["r", "doc"], spec=[("r", "spec_r", ident), ("doc", "spec_doc", ident)], laws=[])},
   rule="tiny-grammar exhaustive scope + seeded random (document, pointer, value); non-trivial: ≥2 tokens or an index/escaped token, on a container",
   exhaustive="155 tiny documents × all pointers of ≤2/≤3 tokens × 1–2 values",
   theorems="Jp.C06.assign_eq_spec, expand_eq_spec, assign_root, only_two_failures, spec_rules",
  ),
  "C07": dict(
+  twin_toml=True,
   ops={"assign": dict(fields=["r", "doc"], laws=["law_atomic", "law_ryw", "law_frame", "law_replaced", "law_idem"])},
   rule="as C06; the six laws are evaluated on the real crate for every case",
   exhaustive="155 tiny documents × all pointers of ≤2/≤3 tokens × 1–2 values",
   theorems="Jp.C07.atomic, read_your_write, frame, replaced_some, replaced_none, idempotent",
  ),
  "C08": dict(
+  twin_toml=True,
   ops={"delete": dict(fields=["r", "doc"], spec=[("r", "spec_r", ident), ("doc", "spec_doc", ident)],
                       laws=["law_agrees", "law_none_unchanged", "law_removed", "law_root"])},
   rule="tiny-grammar exhaustive scope + seeded random, many pointers ending in index = len, len+1, '-', empty arrays; non-trivial as C05",
@@ -123,24 +132,24 @@ PROPS = {
   partial="the model is parametric in the backend, so JSON = TOML is true of the model by construction; the agreement of the separately written Rust copies is decided by the differential run",
  ),
  "C10": dict(
-  ops={"tree_hist": dict(fields=["steps"], laws=["law_nopanic", "law_nodes"])},
+  ops={"tree_hist": dict(fields=["steps"], spec=[("steps", "spec_steps", ident)], laws=["law_nopanic", "law_nodes"])},
   rule="all histories of length ≤3 over an 8-op pool from 3 start documents (json and toml) + seeded random histories (1–30 / 1–200 steps) generated against the live document; non-trivial: ≥3 steps",
   exhaustive="all histories of length ≤ 3 over 8 operations from 3 start documents, both backends",
   theorems="Jp.C10.step_refines, history_refines, no_step_panics, nodes_addressable_after, wf_preserved",
  ),
  "C11": dict(
-  ops={"buf_hist": dict(fields=["steps"], laws=["law_deque"])},
+  ops={"buf_hist": dict(fields=["steps"], spec=[("steps", "spec_steps", ident)], laws=["law_deque"])},
   rule="all histories of length ≤3 over a 10-step pool from 3 start pointers + seeded random histories (1–12 / ≤40 steps); non-trivial: a token is empty or needs escaping, or ≥3 steps",
   exhaustive="all histories of length ≤ 3 over 10 steps from the pointers \"\", \"/\", \"/a/~0\"",
   theorems="Jp.C11.step_refines, history_refines, history_text, history_decoded, replace_out_of_range, append_*",
  ),
  "C12": dict(
   ops={
-   "split_front": dict(fields=["r"], laws=["law_concat"]),
-   "split_back": dict(fields=["r"], laws=["law_concat"]),
-   "parent": dict(fields=["r"], laws=["law_concat"]),
+   "split_front": dict(fields=["r"], spec=[("r", "spec_r", ident)], laws=["law_concat"]),
+   "split_back": dict(fields=["r"], spec=[("r", "spec_r", ident)], laws=["law_concat"]),
+   "parent": dict(fields=["r"], spec=[("r", "spec_r", ident)], laws=["law_concat"]),
    "split_at": dict(fields=["r"], laws=["law_concat", "law_sep"]),
-   "get": dict(fields=["r"], laws=["law_sublist", "law_view", "law_join"]),
+   "get": dict(fields=["r"], spec=[_get_spec], laws=["law_sublist", "law_view", "law_join"]),
   },
   rule="seeded random pointers (empty/escaped/multi-byte tokens) × all eight index forms and nine Bound pairings with bounds from {0,1,2,n-1,n,n+1,2^64-2,2^64-1} ∪ random; split_at at every k ≤ len+1; non-trivial: range neither `..` nor wholly out of range, or a bound ≥ 2^64-2",
   theorems="Jp.C12.getRange*_spec, getBounds_spec, span_is_sublist, no_panic, excluded_max_none, splitAt_iff, splitAt_concat, split*_spec, *_view",
@@ -148,7 +157,10 @@ PROPS = {
  ),
  "C13": dict(
   ops={
-   "rel": dict(fields=["sw", "ew", "sp", "ss", "ix", "ixr", "cc"], laws=["law_prefix", "law_suffix", "law_ix", "law_concat"]),
+   "rel": dict(fields=["sw", "ew", "sp", "ss", "ix", "ixr", "cc"],
+               spec=[("sw", "spec_sw", ident), ("ew", "spec_ew", ident), ("sp", "spec_sp", ident), ("ss", "spec_ss", ident),
+                     ("ix", "spec_ix", ident), ("ixr", "spec_ix", ident), ("cc", "spec_cc", ident)],
+               laws=["law_prefix", "law_suffix", "law_ix", "law_concat"]),
    "rel3": dict(fields=["cc", "assoc"], laws=["law_concat"]),
    "concat": dict(fields=["text"], laws=["law_list"]),
   },
@@ -164,6 +176,7 @@ PROPS = {
   partial="'formatting never panics' (law_fmt) exists only on the implementation side",
  ),
  "C15": dict(
+  twin_toml=True,
   ops={
    "resolve": dict(fields=["r"] + LOCATE, laws=["law_locate"]),
    "resolve_mut": dict(fields=["r"] + LOCATE, laws=["law_locate"]),
@@ -182,7 +195,7 @@ PROPS = {
   theorems="Jp.C16.fromStr_eq_spec, fromStr_ok_iff, display_fromStr, fromStr_display, *_truthful, forLen*_exact",
  ),
  "C17": dict(
-  ops={"cmp": dict(fields=["eq", "ord"], laws=["law_ops", "law_hash", "law_maps"])},
+  ops={"cmp": dict(fields=["eq", "ord"], spec=[("eq", "spec_eq", ident), ("ord", "spec_ord", ident)], laws=["law_ops", "law_hash", "law_maps"])},
   rule="seeded random ordered pairs of valid pointers (equal, prefix-related, differing in first/middle/last byte or only in length, multi-byte) through all 20 PartialEq and 20 PartialOrd/Ord forms; non-trivial: the texts differ",
   theorems="Jp.C17.eq_impls_are_text_eq, ord_impls_are_lexCmp, lexCmp_* (total order), hash_inputs_equal",
   partial="hash values and map lookups (law_hash, law_maps) exist only on the implementation side; the theorems are shallow by nature",
